@@ -315,8 +315,11 @@ class C14(Check):
     def layers(self, tier):
         sc = [("s",) + c[:3] + (c[3],) for c in str_cases()]
         nc = [("n",) + c[:4] + (c[4],) for c in num_cases()]
-        return [("L0-number-methods", [(c[0], c[1], c[2], c[3], c[4]) for c in nc]),
-                ("L1-string-methods", [(c[0], c[1], c[2], c[3]) for c in sc])]
+        n0 = [(c[0], c[1], c[2], c[3], c[4]) for c in nc]
+        s0 = [(c[0], c[1], c[2], c[3]) for c in sc]
+        return [("L0-number-methods", n0), ("L1-string-methods", s0),
+                ("L2-number-methods-inside-a-function", [c + ("@fn",) for c in n0]),
+                ("L3-string-methods-inside-a-function", [c + ("@fn",) for c in s0])]
 
     def describe(self, case):
         if case[0] == "s":
@@ -347,6 +350,9 @@ class C14(Check):
         return C14._cache
 
     def run_case(self, case):
+        infn = case[-1] == "@fn"
+        if infn:
+            case = case[:-1]
         key = case if case[0] == "s" else ("n", case[1], repr(case[2]), case[3], case[4])
         expr, e = self.table()[key]
         lines = []
@@ -379,6 +385,9 @@ class C14(Check):
                 lines += N.construct("float", case[4][0], "fe", "zf")
         lines.append('print "ready"')
         lines.append(f"print {expr}")
+        if infn:
+            # the same cell with receiver, arguments and call inside one function body (locals instead of module variables)
+            lines = ["cell = fn() {"] + ["\t" + l for l in lines] + ["}", "cell()"]
         src = "\n".join(lines) + "\n"
         res = driver.run_ms(src, env={"MSCRIPT_VERIF_TYPED_PRINT": "1"})
         out = res.lines()
